@@ -38,7 +38,7 @@ theorem C05_delete (cls : Cls) (kvs : List (Str × Val)) (p : Pos) (c : Val)
   have hlen := mergedToks_length_le p
   have htok : tokenize (slash ++ renderPos p) = mergedToks p := tokenize_render p hp
   unfold delete deleteTokens
-  simp only [htok]
+  simp only [stripQ_slash, htok]
   exact deleteLoop_spelled fuel _ _ p c t' hs (mergedToks_ne_nil p hne) ht' (by omega)
 
 /-- **C05 (pop, hit).**  `pop` returns the value lookup returns and has the effect of `delete`. -/
@@ -51,13 +51,15 @@ theorem C05_pop_hit (cls : Cls) (kvs : List (Str × Val)) (p : Pos) (c d : Val)
   refine ⟨t', ht', ?_⟩
   have hget' := (N0.C01.C01_resolves_node cls kvs p c d hp hne hget fuel hf).1
   unfold pop
-  rw [hget']
+  rw [stripQ_slash, hget']
   simp only [hdel]
 
 /-- **C05 (pop, miss).**  When item access raises (the path does not resolve) and leaves the
-tree as it was, `pop` returns the default and changes nothing. -/
+tree as it was, `pop` returns the default and changes nothing.  The path is taken without a leading '?'
+(`stripQ`, fix C05-c; `stripQ xp = xp` for every other path, `stripQ_noQ`): with the '?' item access would answer ''
+instead of raising, and `pop` returned that '' instead of the caller's default. -/
 theorem C05_pop_miss (fuel : Nat) (t : Val) (xp : Str) (d : Val) (r : Bool) (e : PyErr)
-    (hmiss : getItem fuel t xp = (t, .error e)) (h1 : e ≠ .OutOfFuel) (h2 : e ≠ .Unsupported) :
+    (hmiss : getItem fuel t (stripQ xp) = (t, .error e)) (h1 : e ≠ .OutOfFuel) (h2 : e ≠ .Unsupported) :
     pop fuel t xp d r = .ok (t, d) := by
   unfold pop
   rw [hmiss]
@@ -127,7 +129,7 @@ theorem C05_delete_recursive (cls : Cls) (kvs : List (Str × Val)) (p : Pos) (c 
   have hlen := mergedToks_length_le p
   have htok : tokenize (slash ++ renderPos p) = mergedToks p := tokenize_render p hp
   unfold delete deleteTokens
-  simp only [htok]
+  simp only [stripQ_slash, htok]
   exact deleteLoop_rec_spelled fuel _ _ p c t' hs (mergedToks_ne_nil p hne) hdel (by omega)
 
 /-- **nothing else is removed**: when the parent of the deleted node is not an empty dictionary
@@ -156,7 +158,7 @@ theorem C05_pop_hit_recursive (cls : Cls) (kvs : List (Str × Val)) (p : Pos) (c
   have hdel := C05_delete_recursive cls kvs p c t' fuel hp hne hget ht' hf
   have hget' := (N0.C01.C01_resolves_node cls kvs p c d hp hne hget fuel hf).1
   unfold pop
-  rw [hget']
+  rw [stripQ_slash, hget']
   simp only [hdel]
 
 /-! ### every spelling lookup accepts, at the string level -/
@@ -194,8 +196,84 @@ theorem C05_pop_spellings (cls : Cls) (kvs : List (Str × Val)) (lead : Lead) (s
   obtain ⟨t', ht', h1, h2⟩ := C05_delete_spellings cls kvs lead steps c hp hne hget fuel hf
   have hgi := (N0.C01.C01_spellings_string cls kvs lead steps c d hp hne hget fuel hf).1
   refine ⟨t', ht', ?_, ?_⟩
-  · unfold pop; rw [hgi]; simp only [h1]
-  · unfold pop; rw [hgi]; simp only [h2]; rfl
+  · unfold pop; rw [stripQ_noQ _ (renderSp_noQ lead steps hp hne), hgi]; simp only [h1]
+  · unfold pop; rw [stripQ_noQ _ (renderSp_noQ lead steps hp hne), hgi]; simp only [h2]; rfl
+
+/-! ### the '?' spelling (fix C05-c)
+
+Lookup and assignment read a leading '?' as "do not raise for a miss" and resolve the rest: `d['?a/b']` is `d['a/b']` for
+every path that resolves, so `'?' + xpath` is a spelling lookup accepts.  Before the fix `delete` took the '?' as a part of
+the first name (KeyError for an existing node), and `pop`, which swallows whatever `delete` raises, returned the value and
+left it in the tree; for a miss it returned the '' of `d['?…']` instead of the caller's default. -/
+
+/-- **C05 ('?' is not a part of the path).**  `delete('?' + xpath)` is `delete(xpath)` and `pop('?' + xpath, d)` is
+`pop(xpath, d)`, whatever the path, the tree and the outcome are (`xpath` itself not starting with a second '?'). -/
+theorem C05_qmark (fuel : Nat) (t : Val) (xp : Str) (d : Val) (r : Bool) (hq : startsWith xp ['?'] = false) :
+    delete fuel t ('?' :: xp) r = delete fuel t xp r ∧ pop fuel t ('?' :: xp) d r = pop fuel t xp d r := by
+  constructor
+  · unfold delete deleteTokens; rw [stripQ_q, stripQ_noQ _ hq]
+  · unfold pop; rw [stripQ_q, stripQ_noQ _ hq]
+
+/-- **C05 (delete and pop, every spelling, with '?').**  The statement of `C05_delete_spellings` / `C05_pop_spellings` for
+`'?' + spelling`: the node plain Python indexing reaches is removed (with `recursively=True` also the emptied dictionary
+ancestors), `pop` returns its value - which is therefore not present afterwards. -/
+theorem C05_qmark_spellings (cls : Cls) (kvs : List (Str × Val)) (lead : Lead) (steps : List StepSp)
+    (c d : Val) (hp : PlainSteps steps) (hne : steps ≠ [])
+    (hget : stepsGet (.dict cls kvs) steps = some c) (fuel : Nat) (hf : fuel ≥ 2 * steps.length) :
+    let t := Val.dict cls kvs
+    let p := posOf t steps
+    ∃ t', delAt t p = some t' ∧
+      delete fuel t ('?' :: renderSp lead steps) false = (t', .ok ()) ∧
+      delete fuel t ('?' :: renderSp lead steps) true = (pruneUp t' p.dropLast (p.length - 1), .ok ()) ∧
+      pop fuel t ('?' :: renderSp lead steps) d false = .ok (t', c) ∧
+      pop fuel t ('?' :: renderSp lead steps) d true = .ok (pruneUp t' p.dropLast (p.length - 1), c) := by
+  intro t p
+  have hq := renderSp_noQ lead steps hp hne
+  obtain ⟨t', ht', h1, h2⟩ := C05_delete_spellings cls kvs lead steps c hp hne hget fuel hf
+  obtain ⟨t2, ht2, h3, h4⟩ := C05_pop_spellings cls kvs lead steps c d hp hne hget fuel hf
+  have : t2 = t' := by
+    have := ht'.symm.trans ht2
+    exact (Option.some.inj this).symm
+  subst this
+  refine ⟨t2, ht', ?_, ?_, ?_, ?_⟩
+  · rw [(C05_qmark fuel _ _ d false hq).1]; exact h1
+  · rw [(C05_qmark fuel _ _ d true hq).1]; exact h2
+  · rw [(C05_qmark fuel _ _ d false hq).2]; exact h3
+  · rw [(C05_qmark fuel _ _ d true hq).2]; exact h4
+
+/-- **C05 (pop of a missing '?' path).**  When item access on `xpath` raises and leaves the tree alone, `pop('?' + xpath, d)`
+returns `d` - the caller's default, not the '' item access gives for the '?' path - and changes nothing. -/
+theorem C05_qmark_pop_miss (fuel : Nat) (t : Val) (xp : Str) (d : Val) (r : Bool) (e : PyErr)
+    (hmiss : getItem fuel t xp = (t, .error e)) (h1 : e ≠ .OutOfFuel) (h2 : e ≠ .Unsupported) :
+    pop fuel t ('?' :: xp) d r = .ok (t, d) :=
+  C05_pop_miss fuel t ('?' :: xp) d r e (by rw [stripQ_q]; exact hmiss) h1 h2
+
+/-- the witnesses of the finding on `{a: 1, d: {b: 'x'}, h: [1, 2]}`: `pop('?a')`, `pop('?d/b')`, `pop('?h[0]')` return the
+value and remove it, `pop('?zz', 'D')` and `pop('?h[9]', 'D')` return 'D', `delete('?a')` removes `a` -/
+def exQ : Val :=
+  .dict .n0 [(['a'], .int 1), (['d'], .dict .n0 [(['b'], .str ['x'])]), (['h'], .list .n0 [.int 1, .int 2])]
+theorem C05_qmark_ok :
+    pop 20 exQ ['?', 'a'] Val.none false
+      = .ok (.dict .n0 [(['d'], .dict .n0 [(['b'], .str ['x'])]), (['h'], .list .n0 [.int 1, .int 2])], .int 1) ∧
+    pop 20 exQ ['?', 'd', '/', 'b'] Val.none false
+      = .ok (.dict .n0 [(['a'], .int 1), (['d'], .dict .n0 []), (['h'], .list .n0 [.int 1, .int 2])], .str ['x']) ∧
+    pop 20 exQ ['?', 'h', '[', '0', ']'] Val.none false
+      = .ok (.dict .n0 [(['a'], .int 1), (['d'], .dict .n0 [(['b'], .str ['x'])]), (['h'], .list .n0 [.int 2])], .int 1) ∧
+    pop 20 exQ ['?', 'z', 'z'] (.str ['D']) false = .ok (exQ, .str ['D']) ∧
+    pop 20 exQ ['?', 'h', '[', '9', ']'] (.str ['D']) false = .ok (exQ, .str ['D']) ∧
+    delete 20 exQ ['?', 'a'] false
+      = (.dict .n0 [(['d'], .dict .n0 [(['b'], .str ['x'])]), (['h'], .list .n0 [.int 1, .int 2])], .ok ()) := by
+  decide
+-- the hypotheses of `C05_qmark_spellings` / `C05_qmark_pop_miss` are inhabited
+example : ∃ t', delAt exQ (posOf exQ [.key ['h'], .idx .last false]) = some t' ∧
+    delete 20 exQ ('?' :: renderSp .rel [.key ['h'], .idx .last false]) false = (t', .ok ()) ∧
+    pop 20 exQ ('?' :: renderSp .rel [.key ['h'], .idx .last false]) (.str ['D']) false = .ok (t', .int 2) := by
+  obtain ⟨t', h0, h1, _, h3, _⟩ := C05_qmark_spellings .n0
+    [(['a'], .int 1), (['d'], .dict .n0 [(['b'], .str ['x'])]), (['h'], .list .n0 [.int 1, .int 2])] .rel [.key ['h'], .idx .last false] (.int 2) (.str ['D'])
+    ⟨⟨by simp, by intro x hx; simp at hx; subst hx; decide, by simp⟩, trivial⟩ (by simp) (by decide) 20 (by decide)
+  exact ⟨t', h0, h1, h3⟩
+example : pop 20 exQ ('?' :: ['z', 'z', '/', 'y']) (.str ['D']) true = .ok (exQ, .str ['D']) :=
+  C05_qmark_pop_miss 20 exQ _ _ true .IndexError (by decide) (by decide) (by decide)
 
 /-! ### frame: what `delAt` leaves alone -/
 
